@@ -210,6 +210,31 @@ func runC10(p *eng.Prog, r *eng.Report, tier string) {
 	sv := c.fn("C10.4", "", "(*Session).Serve")
 	if sv != nil {
 		g := sv.Graph()
+		// the close-deadline context is re-read in every iteration of the serve
+		// loop (SetCloseDeadline installs a NEW context while Serve runs): no
+		// cycle from the Done() wait back to itself avoids the read of in.ctx
+		nw := 0
+		for _, cl := range sv.Calls("context.Context.Done") {
+			pt, ok := g.Where(cl)
+			if !ok || !g.Reachable(g.After(pt), pt, nil, nil) {
+				continue // not in a loop
+			}
+			nw++
+			reads := func(q eng.Point, nd ast.Node) bool {
+				found := false
+				ast.Inspect(nd, func(x ast.Node) bool {
+					if sel, ok := x.(*ast.SelectorExpr); ok {
+						if k, _ := sv.FieldClass(sel); k == "xmpp.Session.in.ctx" {
+							found = true
+						}
+					}
+					return !found
+				})
+				return found
+			}
+			c.r.Check("C10.4", sv, "deadline context re-read per iteration", "O: every iteration of the serve loop waits on the CURRENT Session.in.ctx (SetCloseDeadline replaces it while Serve runs)", cl.Pos(), !g.Reachable(g.After(pt), pt, nil, reads), "the loop can come back to the Done() wait without reading Session.in.ctx again: a context captured before SetCloseDeadline is cancelled by it and Serve returns early with context.Canceled")
+		}
+		c.r.Floor("C10.4", "Done() waits in the serve loop", nw, 1)
 		okDefer := false
 		for _, d := range g.Defers {
 			lit, ok := ast.Unparen(d.Call.Fun).(*ast.FuncLit)
